@@ -538,22 +538,24 @@ const ping = "served-PING"
 const pong = "back-PONG"
 
 type world struct {
-	ctx    context.Context
-	cancel context.CancelFunc
-	sm     *session.SessionManager
-	mrepo  *repos.PortMappingRepo
-	pms    services.PortMappingService
-	ccs    *services.ConnectionCodeService
-	ccs2   *services.ConnectionCodeService
-	cc     *managers.BuiltinCloudControl
-	gs     *gateStore
-	gpms   *gatedPMS
-	st     storage.Storage
-	decoy  *assertingConn
-	rt     *session.TunnelRoutingTable
-	conns  []*pipeEnd
-	ln     net.Listener
-	fwd    atomic.Bool
+	ctx       context.Context
+	cancel    context.CancelFunc
+	sm        *session.SessionManager
+	mrepo     *repos.PortMappingRepo
+	pms       services.PortMappingService
+	ccs       *services.ConnectionCodeService
+	ccs2      *services.ConnectionCodeService
+	cc        *managers.BuiltinCloudControl
+	gs        *gateStore
+	gpms      *gatedPMS
+	st        storage.Storage
+	decoy     *assertingConn
+	th        *server.ServerTunnelHandler
+	ccAdapter session.CloudControlAPI
+	rt        *session.TunnelRoutingTable
+	conns     []*pipeEnd
+	ln        net.Listener
+	fwd       atomic.Bool
 }
 
 func newWorld() *world { return newWorldCfg("") }
@@ -576,6 +578,7 @@ func newWorldCfg(cfg string) *world {
 	pms2 := services.NewPortMappingService(w.mrepo, idgen.NewIDManager(st, w.ctx), nil, w.ctx)
 	w.ccs2 = services.NewConnectionCodeService(repos.NewConnectionCodeRepository(repo), pms2, w.mrepo, nil, w.ctx)
 	th := server.NewServerTunnelHandler(cc, ccs)
+	w.th, w.ccAdapter = th, session.NewCloudControlAdapter(cc)
 	w.sm = session.NewSessionManager(idgen.NewIDManager(st, w.ctx), w.ctx)
 	w.sm.SetTunnelHandler(th)
 	w.sm.SetAuthHandler(stubAuth{})
@@ -869,6 +872,163 @@ func runE2E() string {
 		waitEcho(tgt, src)
 	}
 	return fmt.Sprintf("secret %s src %s pushed %s leak %s tgt %s data %s", sec, srcAck, b2s(pushed), b2s(leak), tgtAck, b2s(data))
+}
+
+// ---- two real nodes
+
+func connectOn(w *world, sm *session.SessionManager, name string) (*peer, error) {
+	srv, cli := newPipe(name)
+	w.conns = append(w.conns, srv)
+	sc, err := sm.AcceptConnection(srv, srv)
+	if err != nil {
+		return nil, err
+	}
+	return &peer{id: sc.ID, srv: srv, cli: cli}, nil
+}
+
+func handshakeOn(sm *session.SessionManager, p *peer, cid int64) {
+	pl, _ := json.Marshal(&packet.HandshakeRequest{ClientID: cid, Token: "ok", Version: "verif", Protocol: "tcp", ConnectionType: "tunnel"})
+	sm.HandlePacket(&types.StreamPacket{ConnectionID: p.id, Packet: &packet.TransferPacket{PacketType: packet.Handshake, Payload: pl}})
+	p.cli.drain()
+}
+
+func openOn(sm *session.SessionManager, p *peer, mid, sec, tid string) error {
+	b, _ := json.Marshal(&packet.TunnelOpenRequest{MappingID: mid, TunnelID: tid, SecretKey: sec})
+	return sm.HandlePacket(&types.StreamPacket{ConnectionID: p.id, Packet: &packet.TransferPacket{PacketType: packet.TunnelOpen, TunnelID: tid, Payload: b}})
+}
+
+// twoNodeIDs: the victim's tunnel id and the attacker's variant spelling of it.
+func twoNodeIDs(variant string) (victim, attacker string, ok bool) {
+	v := "vt-1"
+	switch variant {
+	case "lead-space":
+		return v, " " + v, true
+	case "lead-tab":
+		return v, "\t" + v, true
+	case "lead-nl":
+		return v, "\n" + v, true
+	case "lead-cr":
+		return v, "\r" + v, true
+	case "trail-space":
+		return v, v + " ", true
+	case "trail-nl":
+		return v, v + "\n", true
+	case "bar":
+		return v, v + "|x", true
+	case "case":
+		return v, "VT-1", true
+	case "hdr16":
+		// the frame header carries only the first 16 bytes of the id
+		return "vt-0123456789abcdef-A", "vt-0123456789abcdef-B", true
+	case "plain":
+		return v, "at-1", true
+	}
+	return "", "", false
+}
+
+// runTwoNode: two real session managers (node-A with its real CrossNodeListener, node-B dialling it) over one
+// storage.  The victim's listen client (mapping M) has a tunnel waiting on node-A.  The attacker owns mapping F
+// entirely: its listen client opens, on node-A, a tunnel whose id is a variant spelling of the victim's tunnel id;
+// its target client then opens that id on node-B with F's secret and is forwarded to node-A (TargetReady frame).
+// Both sources write.  The attacker's target must only ever be joined to the attacker's own tunnel.
+//
+//	case: twonode <variant>     obs: srcack <ack> fwdack <ack> sees <none|own|victim|both> victimready <0|1>
+func runTwoNode(variant string) string {
+	vid, aid, ok := twoNodeIDs(variant)
+	if !ok {
+		return "bad-case"
+	}
+	w := newWorld()
+	defer w.close()
+	for _, m := range []mappingT{mapM, mapF} {
+		if err := w.mrepo.CreatePortMapping(toModel(m)); err != nil {
+			return "setup-failed:create-mapping"
+		}
+	}
+	lnA := session.NewCrossNodeListener(w.sm, 0)
+	if err := lnA.Start(w.ctx); err != nil {
+		return "setup-failed:listener"
+	}
+	defer lnA.Stop()
+	smB := session.NewSessionManager(idgen.NewIDManager(w.st, w.ctx), w.ctx)
+	defer smB.Close()
+	smB.SetTunnelHandler(w.th)
+	smB.SetAuthHandler(stubAuth{})
+	smB.SetCloudControl(w.ccAdapter)
+	smB.SetNodeID("node-B")
+	smB.SetTunnelRoutingTable(session.NewTunnelRoutingTable(w.st, 30*time.Second))
+	mgrB := session.NewTunnelConnectionManager(func(nodeID string) (string, error) {
+		if nodeID != "node-A" {
+			return "", errors.New("no such node")
+		}
+		return lnA.VerifAddr(), nil
+	}, session.DefaultTunnelConnectionManagerConfig())
+	defer mgrB.Close()
+	smB.SetTunnelConnectionManager(mgrB)
+
+	// the victim's tunnel waits on node-A
+	s1, err := connectOn(w, w.sm, "S1")
+	if err != nil {
+		return "setup-failed:connect"
+	}
+	handshakeOn(w.sm, s1, mapM.listen)
+	openOn(w.sm, s1, mapM.id, "", vid)
+	if r, ex := w.sm.VerifBridgeReady(vid); !ex || r {
+		return "setup-failed:victim-bridge"
+	}
+	s1.cli.drain()
+	// the attacker's own tunnel, same node, variant id
+	s2, err := connectOn(w, w.sm, "S2")
+	if err != nil {
+		return "setup-failed:connect"
+	}
+	handshakeOn(w.sm, s2, mapF.listen)
+	openOn(w.sm, s2, mapF.id, "", aid)
+	srcAck, _ := readAck(s2.cli.snapshot())
+	s2.cli.drain()
+	// the attacker's target client arrives on node-B
+	r, err := connectOn(w, smB, "R")
+	if err != nil {
+		return "setup-failed:connect"
+	}
+	handshakeOn(smB, r, mapF.target)
+	done := make(chan struct{})
+	go func() { defer close(done); defer func() { recover() }(); openOn(smB, r, mapF.id, mapF.secret, aid) }()
+	select {
+	case <-done:
+	case <-time.After(3 * time.Second):
+	}
+	fwdAck, _ := readAck(r.cli.snapshot())
+	const victimData, ownData = "VICTIM-tunnel-bytes", "OWN-tunnel-bytes"
+	s1.cli.Write([]byte(victimData))
+	s2.cli.Write([]byte(ownData))
+	sees := "none"
+	wait := 60 * time.Millisecond
+	if fwdAck == "ok" {
+		wait = 1500 * time.Millisecond
+	}
+	for dl := time.Now().Add(wait); time.Now().Before(dl); time.Sleep(time.Millisecond) {
+		buf := r.cli.snapshot()
+		v, o := bytes.Contains(buf, []byte(victimData)), bytes.Contains(buf, []byte(ownData))
+		switch {
+		case v && o:
+			sees = "both"
+		case v:
+			sees = "victim"
+		case o:
+			sees = "own"
+		}
+		if sees != "none" {
+			time.Sleep(30 * time.Millisecond) // anything else that is on its way
+			buf = r.cli.snapshot()
+			if bytes.Contains(buf, []byte(victimData)) && bytes.Contains(buf, []byte(ownData)) {
+				sees = "both"
+			}
+			break
+		}
+	}
+	vready, _ := w.sm.VerifBridgeReady(vid)
+	return fmt.Sprintf("srcack %s fwdack %s sees %s victimready %s", srcAck, fwdAck, sees, b2s(vready))
 }
 
 // runRMW: a revocation racing a read-modify-write of the same mapping record.
@@ -1808,6 +1968,10 @@ func runAll(out *vc.Out, lines []string, tag string) {
 		go func(i int) {
 			defer wg.Done()
 			defer func() { <-sem }()
+			if f := strings.Fields(lines[i]); len(f) == 2 && f[0] == "twonode" {
+				obs[i] = guarded(func() string { return runTwoNode(f[1]) })
+				return
+			}
 			if f := strings.Fields(lines[i]); len(f) == 2 && f[0] == "rmw" {
 				obs[i] = guarded(func() string { return runRMW(f[1]) })
 				return
@@ -1905,6 +2069,8 @@ func main() {
 		}
 		runAll(out, lines, "spelling-matrix")
 		runAll(out, []string{"e2e"}, "e2e")
+		runAll(out, []string{"twonode plain", "twonode lead-space", "twonode lead-tab", "twonode lead-nl", "twonode lead-cr",
+			"twonode trail-space", "twonode trail-nl", "twonode bar", "twonode case", "twonode hdr16"}, "twonode")
 		runAll(out, []string{"rmw usage", "rmw usage-read1", "rmw usage-read2", "rmw stats", "rmw stats-read1", "rmw status", "rmw status-read1"}, "rmw")
 		n := 600
 		if *tier == "thorough" {
